@@ -5,6 +5,9 @@ HERE = os.path.dirname(os.path.dirname(os.path.abspath(__file__)))
 ALL = ["C%02d" % i for i in range(1, 21)]
 
 CHECKS = {
+ "C06": dict(cat="exploration", tech="reference-model monitor: independent forward-mode (dual number) evaluation of generated expression trees vs the real :> / ∇ / ∂ operators on both backends, plus cross-backend comparison and closed-form gradients at matrix points",
+   text="Generated trees (size<=7) over arithmetic, integer and real powers, negation, +/ */, indexing, each and backend math functions are rendered to Klong functions and differentiated by f:>p, p∇f, p∂g and loss:>[w b] at grid points inside the smooth domain, for scalar, vector and multi-parameter forms, on numpy (numeric) and torch (autograd); results are compared with exact dual-number partials and across backends. Matrix-valued points, also produced by transposition / reversal / re-indexing, are checked against closed-form gradients. Held on the trees observed; thresholds leave a near-tolerance band so conditioning cannot alarm.",
+   note="violation thresholds 1e-4 (numeric) / 1e-3 (autograd, cross-backend) relative; smooth-domain points only; the float32 numeric path on torch is a listed finding.", ref="DESIGN.md §4 C06"),
  "C20": dict(cat="exploration", tech="exactly-once / ordering history monitor: token-carrying HTTP requests against the real .web server and token-free JSON message sequences against the real .ws client, with a Klong-side call log written by harness callables",
    text="Per case a real .web server is started on an ephemeral loopback port with a generated route table (<=3 GET, <=3 POST, named handlers) and driven one request at a time with good requests (parameter dictionaries: empty, several keys, URL-encoding-sensitive, non-ASCII, quotes/newlines), unknown paths, wrong methods, a failing handler and handler redefinitions; per request the handler-invocation count, the logged parameter dictionary, status and body are judged, then .webc and a probe of the port. Per websocket case the harness-owned server pushes a sequence over all JSON kinds and the client sends values: delivery exactly once, in order, decoded, and the JSON text of sent values are judged. Held on the sequences observed.",
    note="one request at a time; handlers mention all parameters they receive; body text = Python str() of the handler result.", ref="DESIGN.md §4 C20"),
